@@ -603,6 +603,21 @@ func (env *cenv) evalBinary(t EBinary) cval {
 	if a.T == nil || b.T == nil {
 		env.errf("untyped operand in %s", t.Op)
 	}
+	// string against a constant: by content
+	if (t.Op == "==" || t.Op == "!=") && isString(a.T) && isString(b.T) {
+		var eq *Term
+		if k, ok := env.e.constOfString(b.v); ok {
+			eq = env.e.strEqConst(env.cur, a.v, k)
+		} else if k, ok := env.e.constOfString(a.v); ok {
+			eq = env.e.strEqConst(env.cur, b.v, k)
+		}
+		if eq != nil {
+			if t.Op == "!=" {
+				eq = c.Not(eq)
+			}
+			return cval{v: Val{eq}, T: tBool}
+		}
+	}
 	// non-integer equality (bool, pointers, interfaces, structs)
 	if !isInteger(a.T) {
 		if t.Op == "==" || t.Op == "!=" {
@@ -1015,6 +1030,27 @@ func (env *cenv) evalCall(t ECall) cval {
 		}
 		k := env.toInt64(env.eval(t.Args[2]))
 		return cval{v: e.txtPart(v.v, ch, k), T: types.Typ[types.String]}
+	case "localaddr":
+		// the local address of a socket (environment model: a function of the socket)
+		v := env.eval(t.Args[0])
+		if len(v.v) != 2 {
+			env.errf("localaddr of a non-interface value")
+		}
+		var at types.Type = types.NewInterfaceType(nil, nil)
+		if it, ok := v.T.Underlying().(*types.Interface); ok {
+			for i := 0; i < it.NumMethods(); i++ {
+				if it.Method(i).Name() == "LocalAddr" {
+					at = it.Method(i).Type().(*types.Signature).Results().At(0).Type()
+				}
+			}
+		}
+		return cval{v: Val{c.Apply("sock.localaddr.tag", BV(64), v.v[1]), c.Apply("sock.localaddr.word", BV(64), v.v[1])}, T: at}
+	case "network":
+		v := env.eval(t.Args[0])
+		if len(v.v) != 2 {
+			env.errf("network of a non-interface value")
+		}
+		return cval{v: e.addrNetwork(v.v), T: types.Typ[types.String]}
 	case "atoiok":
 		v := env.eval(t.Args[0])
 		return cval{v: Val{e.txtAtoiOk(v.v)}, T: tBool}
